@@ -146,6 +146,21 @@ def account(corr: Corr, hists, impl, nontrivial):
             corr.count("outcome:" + out_class(o["out"]))
 
 
+def abort_outcome(faults, writes) -> str | None:
+    """The outcome a step must have when one of its write attempts did not complete: the exception of the LAST such
+    attempt (a later failing write in a `finally` clause replaces an earlier exception), a transport error for a
+    failing write, the CancelledError itself when the waiting task was cancelled there.  None: every attempt completed."""
+    last = None
+    for j, (_, ok) in enumerate(writes):
+        if not ok:
+            last = "foreign CancelledError" if j < len(faults) and faults[j] == gw.CANCEL else "err transportFailed"
+    return last
+
+
+def op_faults(op):
+    return op[2] if op[0] == "recv" else op[3]
+
+
 # ---- C03 --------------------------------------------------------------------------------------
 
 PROBE = "0;255;3;0;9;still alive"
@@ -160,6 +175,8 @@ def run_c03(ctx) -> Corr:
     rng = lib.rng_for(ctx.seed, "c03")
     hists = [h for _, h in corpus_histories("C03")]
     hists += histories(ctx, "c03h", 250, 4000, send_ratio=0.1, fault_ratio=0.08)
+    # ... and with the listening / sending task cancelled while it waits in a transport write
+    hists += histories(ctx, "c03c", 120, 2000, send_ratio=0.2, fault_ratio=0.3, cancel_ratio=0.5)
     # targeted: every absurd payload x node known/unknown x version known/unknown x 5 versions
     from .codec import malformed_lines
     mal = [l for l, _ in malformed_lines(lib.rng_for(ctx.seed, "c03m"), "quick") if len(l) < 200][:: (7 if ctx.tier == "quick" else 1)]
@@ -195,7 +212,9 @@ def run_c03(ctx) -> Corr:
     for h, io in zip(hists, impl):
         for i, op in enumerate(h.ops):
             o = io[i + 1]
-            if o["out"].startswith("foreign"):
+            cancelled = o["out"] == "foreign CancelledError" and op[0] != "session" and gw.CANCEL in op_faults(op) \
+                and abort_outcome(op_faults(op), o["writes"]) == "foreign CancelledError"
+            if o["out"].startswith("foreign") and not cancelled:
                 corr.violate("an exception that is not derived from the library's base class escaped",
                              {"history": Hist(h.version, h.metric, h.preload, h.ops[: i + 1]).to_json(), "outcome": o["out"]})
             if op[0] == "recv" and op[1] == PROBE and not op[2] and not o["out"].startswith("ok"):
@@ -398,7 +417,7 @@ def run_c04(ctx) -> Corr:
                 "operation with the abstract registry specification fed the received lines only; oracle = the registry the property "
                 "describes, maintained independently. non-trivial = distinct (state, line) that changes the registry or fails "
                 "with a missing-node/child error")
-    hists = [h for _, h in corpus_histories("C04")] + histories(ctx, "c04h", 300, 5000, send_ratio=0.05, fault_ratio=0.05)
+    hists = [h for _, h in corpus_histories("C04")] + histories(ctx, "c04h", 300, 5000, send_ratio=0.05, fault_ratio=0.08, cancel_ratio=0.4)
     if ctx.tier == "thorough":
         hists += _exhaustive_histories(3)
     impl = run_both(hists, corr, ctx, "registry", "registry view")
@@ -427,7 +446,7 @@ def run_c04(ctx) -> Corr:
                     corr.violate("the yielded message does not carry the decoded field values", {**case, "want": want})
                     break
             if err is not None and err.startswith("err missing"):
-                if o["out"] != err and not o["out"].startswith("err transportFailed"):
+                if o["out"] != err and o["out"] != abort_outcome(op[2], o["writes"]):
                     corr.violate("a message for an unknown node/child did not fail with the error naming it", {**case, "want": err})
                     break
                 new = ref
@@ -663,7 +682,7 @@ def run_c06(ctx) -> Corr:
                 "that produces at least one write")
     hists = [h for _, h in corpus_histories("C06")] + histories(ctx, "c06h", 300, 5000, send_ratio=0.15, fault_ratio=0.0)
     # failing writes: only the comparison with the Lean specification (expectedAttempts) looks at these steps
-    hists += histories(ctx, "c06f", 60, 1000, send_ratio=0.3, fault_ratio=0.3)
+    hists += histories(ctx, "c06f", 60, 1000, send_ratio=0.3, fault_ratio=0.3, cancel_ratio=0.35)
     # time zones: the handler uses time.localtime(); the harness substitutes broken-down local times directly
     rng = lib.rng_for(ctx.seed, "c06t")
     for v in lib.VERSIONS:
@@ -720,7 +739,7 @@ def run_c06(ctx) -> Corr:
 # ---- C07 --------------------------------------------------------------------------------------
 
 
-def sleepy_history(rng, version, length, fault_p=0.0):
+def sleepy_history(rng, version, length, fault_p=0.0, cancel_p=0.0):
     """Sends and wake / non-wake messages over 3 nodes x 2 children x 2 types."""
     h = Hist(version, True)
     for n in (1, 2, 3):
@@ -748,7 +767,7 @@ def sleepy_history(rng, version, length, fault_p=0.0):
         else:
             op = ("recv", f"{n};{rng.choice((0, 1))};0;0;6;d", (), gw.DEFAULT_TIME)
         if op[0] != "session" and fault_p and rng.random() < fault_p:
-            f = tuple(rng.random() < 0.5 for _ in range(rng.randint(1, 4)))
+            f = gw.gen_faults(rng, cancel_p)
             op = (op[0], op[1], f, op[3]) if op[0] == "recv" else (op[0], op[1], op[2], f)
         h.ops.append(op)
     return h
@@ -826,7 +845,8 @@ def run_c08(ctx) -> Corr:
                 keys = [(1 + (j % n_nodes), j % 2, j // 2 * 2) for j in range(k)]
                 for wakes in (1, 2, 3):
                     slots = k + wakes - 1
-                    for faults in itertools.product((False, True), repeat=min(slots, 5)):
+                    kinds = (False, True, gw.CANCEL) if slots <= 3 else (False, True)
+                    for faults in itertools.product(kinds, repeat=min(slots, 5)):
                         h = Hist(v, True)
                         for n in range(1, n_nodes + 1):
                             h.preload.append(("node", n, 17, "2.0", "", "", 0, 0, False, True))
@@ -847,7 +867,7 @@ def run_c08(ctx) -> Corr:
         hists = hists[::step]
     rng = lib.rng_for(ctx.seed, "c08")
     for i in range(100 if ctx.tier == "quick" else 2000):
-        hists.append(sleepy_history(rng, V20[i % 3], rng.randint(5, 30), fault_p=0.3))
+        hists.append(sleepy_history(rng, V20[i % 3], rng.randint(5, 30), fault_p=0.3, cancel_p=0.3 if i % 2 else 0.0))
     impl = run_both(hists, corr, ctx, "writes", "writes view")
     for h, io in zip(hists, impl):
         parked = {}
@@ -868,8 +888,9 @@ def run_c08(ctx) -> Corr:
                     if want_all != got_all:
                         corr.violate("buffered commands were lost or repeated when a write failed during the release", {**case, "before": want_all, "after+written": got_all})
                         break
-                    if failed and o["out"] != "err transportFailed":
-                        corr.violate("a failing write during the release was not reported to the caller of listen", case)
+                    if failed and o["out"] != abort_outcome(op[2], o["writes"]):
+                        corr.violate("a write that did not complete during the release (failed, or the listener cancelled "
+                                     "there) was not reported to the caller of listen as such", case)
                         break
                     others_b = [x for x in before["sbuf"] if x[0][0] != f[0]]
                     others_a = [x for x in o["sbuf"] if x[0][0] != f[0]]
@@ -960,7 +981,7 @@ def run_c10(ctx) -> Corr:
             h.preload = [("node", 2, 17, "2.0", "", "", 0, 0, False, False), ("child", 2, 0, 0, 6, "")]
         for _ in range(rng.randint(4, 30)):
             line = rng.choice(kinds).format(n=rng.choice((1, 2, 3)))
-            faults = (rng.random() < 0.5,) if rng.random() < 0.2 else ()
+            faults = (rng.choice((False, True, True, gw.CANCEL)),) if rng.random() < 0.25 else ()
             h.ops.append(("recv", line, faults, gw.DEFAULT_TIME))
         hists.append(h)
     impl = run_both(hists, corr, ctx, "writes", "writes view")
@@ -1077,6 +1098,7 @@ def run_c11(ctx) -> Corr:
                 for _ in range(3):
                     h.ops.append(("recv", "255;255;3;0;3;", (), gw.DEFAULT_TIME))
                 h.ops.append(("recv", "255;7;3;1;3;", (True,), gw.DEFAULT_TIME))
+                h.ops.append(("recv", "255;255;3;0;3;", (gw.CANCEL,), gw.DEFAULT_TIME))
                 h.ops.append(("recv", "255;255;3;0;3;", (), gw.DEFAULT_TIME))
                 hists.append(h)
     # dense registries around the boundary: the number of nodes and the highest id disagree by the gateway node 0
@@ -1094,7 +1116,8 @@ def run_c11(ctx) -> Corr:
         for _ in range(rng.randint(2, 15)):
             r = rng.random()
             if r < 0.6:
-                h.ops.append(("recv", f"{rng.choice((255, 255, 3))};{rng.choice((255, 255, 9))};3;0;3;", (rng.random() < 0.5,) if rng.random() < 0.15 else (), gw.DEFAULT_TIME))
+                h.ops.append(("recv", f"{rng.choice((255, 255, 3))};{rng.choice((255, 255, 9))};3;0;3;",
+                              (rng.choice((False, True, gw.CANCEL)),) if rng.random() < 0.2 else (), gw.DEFAULT_TIME))
             elif r < 0.85:
                 h.ops.append(("recv", f"{rng.randint(0, 255)};255;0;0;17;2.0", (), gw.DEFAULT_TIME))
             else:
@@ -1116,7 +1139,7 @@ def run_c11(ctx) -> Corr:
             resp = [w for w in o["writes"] if w[0].split(";")[2:5] == ["3", "0", "4"]]
             full = bool(before["nodes"]) and max(before["nodes"]) >= 254
             failed_query = any(not w[1] for w in o["writes"])   # the version query after the error may itself fail
-            if o["out"] == "err tooManyNodes" or (full and o["out"] == "err transportFailed" and failed_query):
+            if o["out"] == "err tooManyNodes" or (full and o["out"] in ("err transportFailed", "foreign CancelledError") and failed_query):
                 if resp or set(o["nodes"]) != set(before["nodes"]):
                     corr.violate("too-many-nodes error but something was written or registered", case)
                     break
@@ -1179,7 +1202,7 @@ def run_c12(ctx) -> Corr:
                         if cmd == 1 and int(t) in (0, 2):
                             # a second held message for node 2 and a wake whose second write fails, then a clean wake
                             h.ops.append(("send", (2, 1, 1, 0, int(t) + 1, "6"), True, ()))
-                            h.ops.append(("recv", f"2;255;3;0;{wake_t};5", (False, True), gw.DEFAULT_TIME))
+                            h.ops.append(("recv", f"2;255;3;0;{wake_t};5", (False, gw.CANCEL if int(t) == 2 else True), gw.DEFAULT_TIME))
                         wakes = [("recv", f"{n};255;3;0;{wake_t};5", (), gw.DEFAULT_TIME) for n in (1, 2)]
                         if cmd == 1 and buffer and not fault:
                             # the same, with the gateway context left and entered again (a reconnect) before the wakes
@@ -1226,7 +1249,7 @@ def run_c12(ctx) -> Corr:
                 f = fields_of(op[1])
                 if f is not None and is_wake(before["proto"], f):
                     got = [w[0] for w in o["writes"] if w[1]]
-                    failed = o["out"].startswith("err transportFailed")
+                    failed = o["out"] in ("err transportFailed", "foreign CancelledError") and any(not w[1] for w in o["writes"])
                     for key in [k for k in pending if k[0] == f[0]]:
                         if pending[key] in got:
                             del pending[key]
@@ -1293,7 +1316,7 @@ def older_types_history(rng, v_old: str, cross: bool, avoid_hb: bool, length: in
             continue
         if cross and n not in known_nodes:
             continue
-        h.ops.append(("recv", line, (rng.random() < 0.5,) if rng.random() < 0.05 else (), gw.DEFAULT_TIME))
+        h.ops.append(("recv", line, (rng.choice((False, True, gw.CANCEL)),) if rng.random() < 0.08 else (), gw.DEFAULT_TIME))
     return h
 
 
